@@ -30,7 +30,7 @@ from typing import Any, Callable, Iterable, Optional
 VERIF = Path(__file__).resolve().parent.parent
 LEAN = VERIF / 'lean'
 REPO = Path(os.environ.get('VERIF_REPO', '/repo'))
-EVIDENCE = VERIF / 'evidence'
+EVIDENCE = Path(os.environ.get('VERIF_EVIDENCE_DIR') or (VERIF / 'evidence'))   # (seed trials write elsewhere)
 REPLAYS = VERIF / 'replays'
 CORPUS = VERIF / 'corpus'
 KNOWN_FINDINGS = VERIF / 'known_findings.json'
